@@ -155,4 +155,204 @@ theorem compute_num_bits_minimal (n : BitVec 64) (hn : n ≠ 0#64)
     rw [this]; exact hlow
   · omega
 
+
+/-! ### zig-zag (columnar writer: signed values in the in-memory column operations) -/
+
+theorem msb_eq63 (n : BitVec 64) : n.msb = n.getLsbD 63 := by
+  simp [BitVec.msb_eq_getLsbD_last]
+
+theorem allOnes_bit (i : Nat) (hi : i < 64) : (BitVec.allOnes 64).getLsbD i = true := by
+  rw [BitVec.getLsbD_allOnes]; simp [hi]
+
+theorem sshift63 (n : BitVec 64) :
+    BitVec.sshiftRight n 63 = if n.msb then BitVec.allOnes 64 else 0#64 := by
+  apply BitVec.eq_of_getLsbD_eq
+  intro i hi
+  rw [BitVec.getLsbD_sshiftRight]
+  have hL : (if 63 + i < 64 then n.getLsbD (63 + i) else n.msb) = n.msb := by
+    split
+    · have : 63 + i = 63 := by omega
+      rw [this, msb_eq63]
+    · rfl
+  rw [hL]
+  have hle : decide (64 ≤ i) = false := by simp; omega
+  rw [hle]
+  cases hm : n.msb
+  · simp
+  · simp only [if_true, allOnes_bit i hi]; rfl
+
+theorem and_one (x : BitVec 64) : x &&& 1#64 = if x.getLsbD 0 then 1#64 else 0#64 := by
+  apply BitVec.eq_of_getLsbD_eq
+  intro i hi
+  rw [BitVec.getLsbD_and, BitVec.getLsbD_one]
+  by_cases h0 : i = 0
+  · subst h0
+    cases hx : x.getLsbD 0
+    · simp
+    · simp
+  · cases hx : x.getLsbD 0
+    · simp [h0]
+    · simp [h0]
+
+theorem neg_and_one (x : BitVec 64) :
+    -(x &&& 1#64) = if x.getLsbD 0 then BitVec.allOnes 64 else 0#64 := by
+  rw [and_one]
+  cases x.getLsbD 0
+  · decide
+  · decide
+
+theorem shl1_bit (n : BitVec 64) (i : Nat) :
+    (n <<< 1).getLsbD (1 + i) = (decide (1 + i < 64) && n.getLsbD i) := by
+  rw [BitVec.getLsbD_shiftLeft]
+  have h1 : decide (1 + i < 1) = false := by simp
+  have h2 : 1 + i - 1 = i := by omega
+  rw [h1, h2]; simp
+
+theorem shl1_bit0 (n : BitVec 64) : (n <<< 1).getLsbD 0 = false := by
+  rw [BitVec.getLsbD_shiftLeft]; simp
+
+theorem decode_encode_zig_zag (n : BitVec 64) : decode_zig_zag (encode_zig_zag n) = n := by
+  unfold decode_zig_zag encode_zig_zag
+  simp only [show (1#32).toNat = 1 from rfl, show (63#32).toNat = 63 from rfl]
+  rw [neg_and_one, sshift63]
+  cases hm : n.msb
+  · simp only [Bool.false_eq_true, if_false, BitVec.xor_zero, shl1_bit0]
+    apply BitVec.eq_of_getLsbD_eq
+    intro i hi
+    rw [BitVec.getLsbD_ushiftRight, shl1_bit]
+    by_cases h63 : i = 63
+    · subst h63
+      rw [msb_eq63] at hm
+      rw [hm]; simp
+    · have : decide (1 + i < 64) = true := by simp; omega
+      rw [this]; simp
+  · have h0 : ((n <<< 1) ^^^ BitVec.allOnes 64).getLsbD 0 = true := by
+      rw [BitVec.getLsbD_xor, shl1_bit0, allOnes_bit 0 (by decide)]; rfl
+    simp only [if_true, h0]
+    apply BitVec.eq_of_getLsbD_eq
+    intro i hi
+    rw [BitVec.getLsbD_xor, BitVec.getLsbD_ushiftRight, BitVec.getLsbD_xor, shl1_bit,
+      allOnes_bit i hi]
+    by_cases h63 : i = 63
+    · subst h63
+      rw [msb_eq63] at hm
+      rw [hm, BitVec.getLsbD_allOnes]; simp
+    · have h1 : decide (1 + i < 64) = true := by simp; omega
+      rw [h1, allOnes_bit (1 + i) (by omega)]
+      cases n.getLsbD i <;> rfl
+
+theorem shr1_shl1_bit (u : BitVec 64) (i : Nat) (hi : i < 64) (h0 : i ≠ 0) :
+    ((u >>> 1) <<< 1).getLsbD i = u.getLsbD i := by
+  rw [BitVec.getLsbD_shiftLeft, BitVec.getLsbD_ushiftRight]
+  have h1 : decide (i < 1) = false := by simp; omega
+  have h2 : 1 + (i - 1) = i := by omega
+  rw [h1, h2]; simp [hi]
+
+theorem encode_decode_zig_zag (u : BitVec 64) : encode_zig_zag (decode_zig_zag u) = u := by
+  unfold decode_zig_zag encode_zig_zag
+  simp only [show (1#32).toNat = 1 from rfl, show (63#32).toNat = 63 from rfl]
+  rw [neg_and_one, sshift63]
+  have hshr : (u >>> 1).msb = false := by simp [BitVec.msb_ushiftRight]
+  cases hb : u.getLsbD 0
+  · simp only [Bool.false_eq_true, if_false, BitVec.xor_zero, hshr]
+    apply BitVec.eq_of_getLsbD_eq
+    intro i hi
+    by_cases h0 : i = 0
+    · subst h0; rw [shl1_bit0, hb]
+    · exact shr1_shl1_bit u i hi h0
+  · have hall : (BitVec.allOnes 64).msb = true := by decide
+    have hm : ((u >>> 1) ^^^ BitVec.allOnes 64).msb = true := by
+      rw [BitVec.msb_xor, hshr, hall]; rfl
+    simp only [if_true, hm]
+    apply BitVec.eq_of_getLsbD_eq
+    intro i hi
+    rw [BitVec.getLsbD_xor, allOnes_bit i hi]
+    by_cases h0 : i = 0
+    · subst h0; rw [shl1_bit0, hb]; rfl
+    · rw [BitVec.getLsbD_shiftLeft, BitVec.getLsbD_xor, BitVec.getLsbD_ushiftRight]
+      have h1 : decide (i < 1) = false := by simp; omega
+      have h2 : 1 + (i - 1) = i := by omega
+      rw [h1, h2, allOnes_bit (i - 1) (by omega)]
+      cases u.getLsbD i <;> simp [hi]
+
+/-! ### small helpers of the columnar crate and of the stacker arena -/
+
+/-- `compute_mask n` keeps exactly the low `n` bits (n ≤ 8) -/
+theorem compute_mask_getLsbD : ∀ (n : BitVec 8), BitVec.ule n 8#8 = true → ∀ i : Fin 8,
+    (compute_mask n).getLsbD i.val = decide (i.val < n.toNat) := by
+  decide
+
+/-- `get_bit_at w n` reads bit `n` of the word -/
+theorem get_bit_at_eq (w : BitVec 64) (n : BitVec 16) (h : n.toNat < 64) :
+    get_bit_at w n = w.getLsbD n.toNat := by
+  unfold get_bit_at
+  have hsingle : ∀ i, (1#64 <<< n.toNat).getLsbD i = decide (i = n.toNat) := by
+    intro i
+    rw [BitVec.getLsbD_shiftLeft, BitVec.getLsbD_one]
+    by_cases hi : i = n.toNat
+    · subst hi; simp [h]
+    · by_cases hlt : i < n.toNat
+      · simp [hlt, hi]
+      · have : ¬ (i - n.toNat = 0) := by omega
+        simp [hi, this]
+  cases hb : w.getLsbD n.toNat
+  · have : w &&& (1#64 <<< n.toNat) = 0#64 := by
+      apply BitVec.eq_of_getLsbD_eq
+      intro i _
+      rw [BitVec.getLsbD_and, hsingle]
+      by_cases hi : i = n.toNat
+      · subst hi; simp [hb]
+      · simp [hi]
+    simp [this]
+  · have : w &&& (1#64 <<< n.toNat) ≠ 0#64 := by
+      intro h0
+      have := congrArg (fun v => BitVec.getLsbD v n.toNat) h0
+      simp only [BitVec.getLsbD_and, hsingle, hb] at this
+      simp at this
+    simp [this]
+
+/-- the arena block sizes are powers of two between 1 and 32 KiB, non-decreasing in the block
+number and capped at 2^15 -/
+theorem get_block_size_spec (b : BitVec 32) :
+    (get_block_size b).toNat = 2 ^ (min b.toNat 15) := by
+  unfold get_block_size
+  by_cases h : BitVec.ule b 15#32 = true
+  · have hb : b.toNat ≤ 15 := by simpa [BitVec.ule_eq_decide] using h
+    simp only [h, if_true]
+    have : min b.toNat 15 = b.toNat := Nat.min_eq_left hb
+    rw [this]
+    have hcases : b.toNat = 0 ∨ b.toNat = 1 ∨ b.toNat = 2 ∨ b.toNat = 3 ∨ b.toNat = 4 ∨ b.toNat = 5
+        ∨ b.toNat = 6 ∨ b.toNat = 7 ∨ b.toNat = 8 ∨ b.toNat = 9 ∨ b.toNat = 10 ∨ b.toNat = 11
+        ∨ b.toNat = 12 ∨ b.toNat = 13 ∨ b.toNat = 14 ∨ b.toNat = 15 := by omega
+    rcases hcases with h|h|h|h|h|h|h|h|h|h|h|h|h|h|h|h <;> rw [h] <;> decide
+  · have hb : ¬ b.toNat ≤ 15 := by simpa [BitVec.ule_eq_decide] using h
+    have h' : BitVec.ule b 15#32 = false := by simpa using h
+    simp only [h', Bool.false_eq_true, if_false]
+    have : min b.toNat 15 = 15 := Nat.min_eq_right (by omega)
+    rw [this]; decide
+
+/-- the previous power of two: `p ≤ n < 2 p` with `p` a power of two (n > 0) -/
+theorem compute_previous_power_of_two_spec (n : BitVec 64) (hn : n ≠ 0#64) :
+    ∃ k, k < 64 ∧ (compute_previous_power_of_two n).toNat = 2 ^ k
+      ∧ 2 ^ k ≤ n.toNat ∧ n.toNat < 2 ^ (k + 1) := by
+  have hc : (BitVec.clz n).toNat < 64 := by
+    have := (BitVec.clz_lt_iff_ne_zero (x := n)).mpr hn
+    simpa [BitVec.lt_def] using this
+  refine ⟨63 - (BitVec.clz n).toNat, by omega, ?_, ?_, ?_⟩
+  · unfold compute_previous_power_of_two
+    have h8 : (BitVec.setWidth 8 (63#32 - BitVec.setWidth 32 (BitVec.clz n))).toNat
+        = 63 - (BitVec.clz n).toNat := by
+      simp [BitVec.toNat_sub, BitVec.toNat_setWidth]; omega
+    simp only [h8]
+    rw [BitVec.toNat_shiftLeft]
+    have hlt : 2 ^ (63 - (BitVec.clz n).toNat) < 2 ^ 64 :=
+      Nat.pow_lt_pow_right (by decide) (by omega)
+    simp [Nat.shiftLeft_eq, Nat.mod_eq_of_lt hlt]
+  · have := BitVec.two_pow_sub_clz_le_toNat_of_ne_zero (x := n) (by decide) hn
+    have e : 64 - 1 - (BitVec.clz n).toNat = 63 - (BitVec.clz n).toNat := by omega
+    rw [e] at this; exact this
+  · have := BitVec.toNat_lt_two_pow_sub_clz (x := n)
+    have e : 63 - (BitVec.clz n).toNat + 1 = 64 - (BitVec.clz n).toNat := by omega
+    rw [e]; exact this
+
 end TantivyModel.PureFns
